@@ -34,6 +34,11 @@ func (s *scripted) fn(kind string) router.Factory {
 			return &client{tag: fmt.Sprintf("%s-%s-%d", kind, name, s.made)}, nil
 		case "error":
 			return nil, errors.New("cannot make " + name)
+		case "status-error":
+			// e.g. the node that would host the name cannot be reached: still "no client for that name" to the router's caller
+			return nil, status.Error(codes.Unavailable, "cannot reach the node of "+name)
+		case "wrapped-status-error":
+			return nil, fmt.Errorf("dialling %s: %w", name, status.Error(codes.DeadlineExceeded, "too slow"))
 		}
 		return nil, nil
 	}
@@ -49,7 +54,7 @@ func TestRouterRegistry(t *testing.T) {
 		beh := func(label string) map[string]string {
 			m := map[string]string{}
 			for _, n := range names {
-				m[n] = rapid.SampledFrom([]string{"client", "nil", "error"}).Draw(t, label+n)
+				m[n] = rapid.SampledFrom([]string{"client", "client", "nil", "error", "status-error", "wrapped-status-error"}).Draw(t, label+n)
 			}
 			return m
 		}
